@@ -251,6 +251,22 @@ func (c *Ctx) ruleAnswerReportsStored(rule string, ops []*ssa.Function, role, re
 			}
 			check(f0, s.Inner, want, "write "+siteDescInner(c, s)+stateOf(want))
 			if s.Direct {
+				// a helper new on this tree that performs the write without returning the record: each caller
+				// answers with the values it handed in
+				if f0 != op && f0.Parent() == nil && c.P.IsNewFunc(f0) && resultIdx(f0) < 0 {
+					for _, oc := range c.CtxsOf(s.Inner) {
+						if oc.call == nil || oc.Fn != f0 {
+							continue
+						}
+						want2 := map[string]*Ex{}
+						for col, p := range params {
+							if p < len(d.Args) {
+								want2[col] = oc.Of(d.Args[p])
+							}
+						}
+						check(oc.call.Parent(), oc.call, want2, "write through "+c.P.FuncKey(f0)+stateOf(want2))
+					}
+				}
 				// a helper new on this tree that hands the record back: each caller passes it on untouched
 				if f0 != op && f0.Parent() == nil && c.P.IsNewFunc(f0) && resultIdx(f0) >= 0 {
 					for _, site := range c.callersOf(f0) {
